@@ -108,7 +108,9 @@ def feed(p, defs, imported, ids, mid, hid, cval):
     for path, ds in groups:
         p.current_file = pathlib.Path(path)
         if path.endswith("user.yaml"):
-            p.handle_expression("KONST", cval)
+            for cname, cexpr in sh("consts", []):
+                p.handle_expression(cname, cexpr)
+            p.handle_expression("KONST", 5)     # constants are concrete (their texts are the subject); ids are symbolic
             p.handle_string("GREETING", "hello")
             p.handle_host_id("LOCAL_HOST", hid)
             p.handle_module_id("MY_MODULE", mid)
@@ -117,10 +119,10 @@ def feed(p, defs, imported, ids, mid, hid, cval):
                 p.handle_alias(d[1], d[2])
         for d in ds:
             if d[0] == "struct":
-                p.handle_struct(d[1], {"fields": {f[0]: (f[1] + ("[%d]" % f[2] if f[2] else "")) for f in d[2]}})
+                p.handle_struct(d[1], {"fields": {f[0]: (f[1] + ("[%s]" % f[2] if f[2] else "")) for f in d[2]}})
         for d in ds:
             if d[0] == "msg":
-                p.handle_message_def(d[1], {"id": ids[mi], "fields": {f[0]: (f[1] + ("[%d]" % f[2] if f[2] else "")) for f in d[2]}})
+                p.handle_message_def(d[1], {"id": ids[mi], "fields": {f[0]: (f[1] + ("[%s]" % f[2] if f[2] else "")) for f in d[2]}})
                 mi += 1
             elif d[0] == "signal":
                 p.handle_message_def(d[1], {"id": ids[mi], "fields": None})
@@ -289,6 +291,70 @@ def read_m(text):
         if m:
             out["hash"][m.group(1)] = m.group(2).lower()
     return out
+
+
+CONST_PATTERNS = {
+    "py": r"^(\w+): (?:int|float) = (.+)$",
+    "c": r"^#define (\w+)\s+(.+)$",
+    "js": r"^RTMA\.constants\.(\w+) = (.+);$",
+    "m": r"^RTMA\.defines\.(\w+) = (.+);$",
+}
+
+
+def read_consts(lang, text):
+    out = {}
+    for line in text.splitlines():
+        m = re.match(CONST_PATTERNS[lang], line)
+        if m and not m.group(1).startswith(("MT_", "MID_", "HID_", "HASH_", "COMPILED", "_")):
+            out[m.group(1)] = m.group(2).strip()
+    return out
+
+
+def c_eval(text):
+    """value of a numeric #define body as a C compiler evaluates it (int / int is integer division, truncating)"""
+    import ast
+
+    def ev(n):
+        if isinstance(n, ast.Expression):
+            return ev(n.body)
+        if isinstance(n, ast.Constant) and isinstance(n.value, (int, float)):
+            return n.value
+        if isinstance(n, ast.UnaryOp) and isinstance(n.op, (ast.USub, ast.UAdd)):
+            v = ev(n.operand)
+            return -v if isinstance(n.op, ast.USub) else v
+        if isinstance(n, ast.BinOp):
+            a, b = ev(n.left), ev(n.right)
+            if isinstance(n.op, ast.Add):
+                return a + b
+            if isinstance(n.op, ast.Sub):
+                return a - b
+            if isinstance(n.op, ast.Mult):
+                return a * b
+            if isinstance(n.op, ast.Div):
+                if isinstance(a, int) and isinstance(b, int):
+                    q = abs(a) // abs(b)
+                    return q if (a >= 0) == (b >= 0) else -q
+                return a / b
+            if isinstance(n.op, ast.Mod):
+                return int(a - b * int(a / b))
+        raise ValueError("not a numeric C expression: %r" % text)
+
+    return ev(ast.parse(text.strip(), mode="eval"))
+
+
+def constants_agree(p, outs):
+    for lang in ("py", "c", "js", "m"):
+        got = read_consts(lang, outs[lang])
+        for c in p.constants.values():
+            if c.name not in got:
+                return False, "%s output lacks constant %s" % (lang, c.name)
+            try:
+                v = c_eval(got[c.name]) if lang == "c" else eval(got[c.name], {"__builtins__": {}})
+            except Exception:
+                return False, "%s: constant %s = %r is not a number" % (lang, c.name, got[c.name])
+            if v != c.value:
+                return False, "%s: constant %s evaluates to %r, the compiler computed %r" % (lang, c.name, v, c.value)
+    return True, ""
 
 
 def resolve_model(p, type_name):
@@ -512,6 +578,8 @@ def toolchain(p, outs):
             for fl in x.fields:
                 body.append('printf(" %%zu", offsetof(%s, %s));' % (cn, fl.name))
             body.append('printf("\\n");')
+        for c in p.constants.values():
+            body.append('printf("CONST %s %%.17g\\n", (double)(%s));' % (c.name, c.name))
         with open(_os.path.join(d, "t.c"), "w") as f:
             f.write(C_PRELUDE + '#include "defs.h"\nint main(){\n' + "\n".join(body) + "\nreturn 0;}\n")
         r = _sp.run(["gcc", "-w", "-I", d, "-o", _os.path.join(d, "t"), _os.path.join(d, "t.c")], capture_output=True, text=True, timeout=120)
@@ -521,6 +589,9 @@ def toolchain(p, outs):
             r = _sp.run([_os.path.join(d, "t")], capture_output=True, text=True, timeout=60)
             for line in r.stdout.splitlines():
                 parts = line.split()
+                if parts[0] == "CONST":
+                    layout.setdefault("__const__", {})[parts[1]] = float(parts[2])
+                    continue
                 layout.setdefault(parts[0], {})["c"] = (int(parts[1]), [int(v) for v in parts[2:]])
         # --- JavaScript: the module imports, every factory returns a fresh object with distinct array elements
         with open(_os.path.join(d, "defs.mjs"), "w") as f:
@@ -594,9 +665,15 @@ def scenario(which, base, mid, hid, cval):
     if which == "c04":
         with NoTracing():
             ok, why = agreement(p, outs, [i0, i1, i2])
+            if ok:
+                ok, why = constants_agree(p, outs)
         if ok and REAL:
             # replay: the layout the C compiler gives the generated header == the generated Python class == the parser's size
             probs, layout = toolchain(p, outs)
+            for c in p.constants.values():
+                cv = layout.get("__const__", {}).get(c.name)
+                if cv is not None and cv != float(c.value):
+                    return False, "constant %s is %r for the C compiler, %r for the pyrtma compiler (and the other outputs)" % (c.name, cv, c.value)
             for x in list(p.struct_defs.values()) + [m for m in p.message_defs.values() if m.fields]:
                 L = layout.get(x.name, {})
                 if "c" in L and "py" in L:
